@@ -264,6 +264,21 @@ class World(object):
             for (group, name), value in self.conf.items():
                 cfg.CONF.set_override(name, value, group=group)
                 st.callback(cfg.CONF.clear_override, name, group=group)
+        # log of compare-and-swap state updates (id, from, to, hit)
+        from mistral.db.v2.sqlalchemy import api as sa_api
+        self.cas_log = []
+
+        def wrap(name, kind):
+            real = getattr(sa_api, name)
+
+            def f(id, cur_state, state):
+                r = real(id=id, cur_state=cur_state, state=state)
+                self.cas_log.append((kind, id, cur_state, state,
+                                     r is not None))
+                return r
+            st.enter_context(env.patched(sa_api, name, f))
+        wrap('update_workflow_execution_state', 'wf')
+        wrap('update_task_execution_state', 'task')
         if self.expr_stub is not None:
             from mistral import expressions
             st.enter_context(env.patched(expressions, 'evaluate',
